@@ -497,6 +497,8 @@ def _model(case):
     lm = LM.make_hashlm(case["lm"])
     if (case.get("seed", 0) + case.get("V", 0)) % 3 == 0:
         lm.inplace_state = True  # the model updates the state dictionary it is handed in place
+    if (case.get("seed", 0) + 2 * case.get("V", 0)) % 3 == 1:
+        lm.rebuild_state = True  # update_input derives the start state from the static input on every call
     N = case["batch"]
     n_el = 1 if N is None else N
     cond = case["cond"]
